@@ -262,9 +262,9 @@ class error_999_visitor(pyx12.error_visitor.error_visitor):
             for (err_cde, err_str, bad_value) in elem.errors:
                 # Ugly
                 if 'ST' in err_str:
-                    err_codes.append(st_ele_err_map[elem.ele_pos])
+                    err_codes.append(st_ele_err_map.get(elem.ele_pos, '5'))
                 elif 'SE' in err_str:
-                    err_codes.append(se_ele_err_map[elem.ele_pos])
+                    err_codes.append(se_ele_err_map.get(elem.ele_pos, '5'))
         # return unique codes
         ret = list(set(err_codes))
         ret.sort()
